@@ -500,6 +500,58 @@ def r17_6(ctx, rep):
            "; ".join(bad[:4]) + " — members of one class then disagree about their relative sign, and the next add() that consults the lookup stores the wrong signs for the whole class")
 
 
+@SPEC.rule(
+    "R17.7",
+    "the merged class takes name and sign from the first argument's lookup: in add() both components of what is stored in the canonical map "
+    "— (C, S) for a member, (C, -S) for its negation — are bound exactly once, by unpacking canonical_signed(<first argument>); the lookup of the "
+    "second argument only yields the canonical name to retire (binding its sign to the same local overwrites S)",
+)
+def r17_7(ctx, rep):
+    from ..cfg import CFG, reaching_defs
+    R = "R17.7"
+    fn = ctx.methods(AR, CLS, R).get("add")
+    if fn is None:
+        raise MechanismMissing(R, "AliasRelation.add not found")
+    site = "%s:%s.add" % (AR, CLS)
+    first = fn.args.args[1].arg
+    cfg = CFG(fn, R)
+    n = 0
+    for x in cfg.stmts():
+        a = x.ast
+        if not (isinstance(a, ast.Assign) and isinstance(a.targets[0], ast.Subscript) and "canonical" in norm(a.targets[0].value) and "map" in norm(a.targets[0].value)
+                and isinstance(a.value, ast.Tuple) and len(a.value.elts) == 2):
+            continue
+        n += 1
+        for role, e in (("name", a.value.elts[0]), ("sign", a.value.elts[1])):
+            if isinstance(e, ast.UnaryOp) and isinstance(e.op, ast.USub):
+                e = e.operand
+            if not isinstance(e, ast.Name):
+                rep.ob(R, site, "%s stored by `%s`" % (role, norm(a)[:60]), False, "the stored %s is not a local bound from the first argument's lookup" % role)
+                continue
+            rd = reaching_defs(cfg, e.id).get(x.id, set())
+            good = True
+            why = []
+            for d in rd:
+                if d == cfg.entry:
+                    good = False
+                    why.append("unbound")
+                    continue
+                dn = cfg.nodes[d].ast
+                ok = isinstance(dn, ast.Assign) and isinstance(dn.targets[0], ast.Tuple) and isinstance(dn.value, ast.Call) and (call_name(dn.value) or "").endswith("canonical_signed") \
+                    and dn.value.args and is_name(dn.value.args[0], first)
+                if ok:
+                    pos = [i for i, t in enumerate(dn.targets[0].elts) if is_name(t, e.id)]
+                    ok = pos == [0 if role == "name" else 1]
+                if not ok:
+                    good = False
+                    why.append("line %d: %s" % (cfg.nodes[d].lineno, norm(dn)[:60]))
+            rep.ob(R, site, "%s stored by `%s` comes from the first argument's lookup" % (role, norm(a)[:50]), good and len(rd) == 1,
+                   "`%s` reaches the store bound by %s: the class's members get the sign (name) of the second argument's old class, so canonical_signed() "
+                   "of a member and of its partner no longer agree" % (e.id, "; ".join(why) or "%d definitions" % len(rd)))
+    if n < 2:
+        raise MechanismMissing(R, "expected the stores for a member and for its negation into the canonical map, found %d" % n)
+
+
 # -- seeded variants ---------------------------------------------------------
 from ._mut import delete_stmt_where, replace_in_func  # noqa: E402
 
@@ -608,3 +660,15 @@ def _m_lookup_sign(mod):
         return True
 
     return mod if replace_in_func(mod, "AliasRelation.canonical_signed", edit) else None
+
+
+@SPEC.mutant("sign of the merged class taken from the second argument's lookup", AR, "R17.7", "comes from the first argument")
+def _m_sign_b(mod):
+    def edit(fn):
+        for st in ast.walk(fn):
+            if isinstance(st, ast.Assign) and isinstance(st.targets[0], ast.Tuple) and "canonical_signed(b)" in norm(st.value):
+                st.targets[0].elts[1] = ast.Name(id="sign_a", ctx=ast.Store())
+                return True
+        return False
+
+    return mod if replace_in_func(mod, "AliasRelation.add", edit) else None
